@@ -19,6 +19,15 @@ def tla_bool(b):
     return 'TRUE' if b else 'FALSE'
 
 
+# ConnSetImpl.tla: the design as built (every ingredient present)
+CONNSET_ASBUILT = dict(CanonOnAdd='TRUE', CanonOnUnion='TRUE', AddSkipsWhenAll='TRUE', ContainedChecksNames='TRUE',
+                       SubtractChecksContained='TRUE', IsAllByRangeOnly='TRUE', IntersectDropsEmpty='TRUE')
+
+
+def connset_trace_cfg(M, NR):
+    return write_cfg('ConnSetTrace_M%d_NR%d.cfg' % (M, NR), dict(CONNSET_ASBUILT, M=M, NR=NR), spec='TSpec', extra='POSTCONDITION TraceAccepted')
+
+
 def simulate_cluster(tag, num, depth, admin=False, ingr=False, maxwl=4, maxnp=3, maxrules=2, maxanp=3, workers=4, timeout=1500):
     """Runs `tlc -simulate` on Cluster.tla; returns (path of output with BEHAVIOUR lines, states, behaviours)."""
     cfg = write_cfg('Cluster_%s.cfg' % tag, dict(Sim='TRUE', Admin=tla_bool(admin), Ingr=tla_bool(ingr), MaxWl=maxwl, MaxNP=maxnp,
